@@ -5,3 +5,5 @@ import Golem.Props.C17
 import Golem.Props.C18
 import Golem.Props.C19
 import Golem.Lemmas.PoolInv
+import Golem.Props.C16
+import Golem.Props.C04
